@@ -99,8 +99,14 @@ func NewNet(r *rand.Rand, me string, nUsers, nChans int) *Net {
 func (n *Net) addUser() *NUser {
 	n.nickN++
 	nick := fmt.Sprintf("u%d", n.nickN)
-	if n.nickN%3 == 0 {
+	switch n.nickN % 6 {
+	case 0, 3:
 		nick = fmt.Sprintf("U%d_", n.nickN)
+	case 2:
+		// RFC 2812 nicks may begin with a "special" character: [ ] \ ` _ ^ { | }
+		nick = []string{"_", "[", "{", "^", "|", "`", "\\", "]", "}"}[n.nickN/6%9] + fmt.Sprintf("s%d]", n.nickN)
+	case 5:
+		nick = fmt.Sprintf("x-%d-", n.nickN)
 	}
 	u := &NUser{Nick: nick, Ident: "i" + strconv.Itoa(n.nickN), Host: fmt.Sprintf("h%d.example", n.nickN), Real: fmt.Sprintf("Real %d", n.nickN)}
 	n.Users[nick] = u
